@@ -152,11 +152,17 @@ pub fn check_c08(tier: Tier, seed: u64) -> PropReport {
 }
 
 pub fn check_c11(tier: Tier, seed: u64) -> PropReport {
-    let mut rep = base("C11", tier, seed, &format!("{GEN}oracle: farm creation is accepted exactly when an independent predicate written from the documentation says so (live farms below the limit after auto-closing expired ones, reward >= minimum, funds exactly reward + fee with overpaid fee refunded, epochs inside the buffer, identifier free); on success the complete map of balance changes equals: creator -(reward+fee) net of refund, fee collector +fee, farm manager +reward, owners of auto-closed expired farms + their unclaimed remainder, nobody else; the farm reported afterwards has budget = reward and rate = floor(reward/epochs); expansion accepted only for the owner, before the end, in multiples of the rate, adds exactly the amount and amount/rate epochs; close accepted only for the farm owner or the contract owner and refunds exactly funded - claimed to the farm owner; after every step the reported farms equal the model and no LP token has more unexpired farms than configured. non-trivial = farm closed (or auto-closed) after claims, or expanded after claims; distinct by the generated history"));
+    let mut rep = base("C11", tier, seed, &format!("{GEN}oracle: farm creation is accepted exactly when an independent predicate written from the documentation says so (live farms below the limit after auto-closing expired ones, reward >= minimum, funds exactly reward + fee with overpaid fee refunded, epochs inside the buffer, identifier free); on success the complete map of balance changes equals: creator -(reward+fee) net of refund, fee collector +fee, farm manager +reward, owners of auto-closed expired farms + their unclaimed remainder, nobody else; the farm reported afterwards has budget = reward and rate = floor(reward/epochs); expansion accepted only for the owner, before the end, in multiples of the rate, adds exactly the amount and amount/rate epochs; close accepted only for the farm owner or the contract owner and refunds exactly funded - claimed to the farm owner; after every step the reported farms equal the model and no LP token has more unexpired farms than configured. engine 2 (farm-limit): the owner raises the limit to a generated number (1-14, or 99-102; a number the contract refuses leaves the old limit in force, a number it accepts must be what Config reports and what is enforced), then generated creations on two LP tokens (named or not, from four users), closes by the farm owners and fill-ups (creations in a row until one is refused) with no time passing: a creation is accepted exactly while the LP token has fewer unexpired farms than the limit, and a fill-up must hit a refusal within limit + 3 attempts. non-trivial = farm closed (or auto-closed) after claims, or expanded after claims (engine 1); a fill-up that reached the limit (engine 2); distinct by the generated history"));
     let e = c11_engine();
     let cases = n(tier, 6000, 40_000);
     let o = drive(&e, "C11", tier, cases, seed);
     rep.push(e.name, o);
+    // the limit clause for every configured number (engine 2)
+    let lim = n(tier, 600, 6000);
+    let o = drive(&crate::props::c11_limit::FarmLimit, "C11", tier, lim, seed);
+    rep.push("farm-limit", o);
+    rep.floor("limit: filled with a limit above 10", lim / 4);
+    rep.floor("limit: a limit above 100 requested", lim / 60);
     rep.floor("farm auto-closed on create", cases / 20);
     rep.floor("farm closed after claims", cases / 10);
     rep.floor("farm expand: ok", cases / 4);
